@@ -43,6 +43,11 @@ struct St {
     source_upto: usize,
     /// value of `source_upto` the last time the join polled the source
     source_seen_upto: usize,
+    /// the source has returned `None`; polling it again is a contract violation (a plain `unfold`/`iter` source may panic)
+    source_ended: bool,
+    source_polled_after_end: bool,
+    /// wakers of whoever waits for the consumer to have received a given number of results
+    yield_waiters: Vec<(usize, Waker)>,
     source_waker: Option<Waker>,
     source_polls_pending: u64,
     /// forward dependency distance: item i is ready only when item i+dep has been polled (0 = none)
@@ -131,6 +136,25 @@ impl Future for WaitPolled {
     }
 }
 
+/// resolves once the consumer has received at least `n` results
+struct WaitYielded {
+    n: usize,
+    st: StdArc<StdMutex<St>>,
+}
+impl Future for WaitYielded {
+    type Output = ();
+    fn poll(self: Pin<&mut Self>, cx: &mut Context<'_>) -> Poll<()> {
+        let mut s = self.st.lock().unwrap();
+        if s.yielded >= self.n {
+            Poll::Ready(())
+        } else {
+            let n = self.n;
+            s.yield_waiters.push((n, cx.waker().clone()));
+            Poll::Pending
+        }
+    }
+}
+
 struct Source {
     next: usize,
     st: StdArc<StdMutex<St>>,
@@ -143,7 +167,12 @@ impl Stream for Source {
         let st = StdArc::clone(&self.st);
         let mut s = st.lock().unwrap();
         s.source_seen_upto = s.source_upto;
+        if s.source_ended {
+            s.source_polled_after_end = true;
+            return Poll::Ready(None);
+        }
         if self.next >= s.n {
+            s.source_ended = true;
             return Poll::Ready(None);
         }
         if self.next < s.source_upto {
@@ -196,7 +225,7 @@ impl Scenario for SjScenario {
         };
         let est = 60 + n as u64 * 10;
         json!({"w": w, "n": n, "variant": variant, "release": release, "errs": errs, "dep": dep,
-               "source_gated": r.chance(1, 2), "inexact_hint": r.chance(1, 2),
+               "source_gated": r.chance(1, 2), "inexact_hint": r.chance(1, 2), "gate_on_results": r.chance(1, 2),
                // tasks behind the first failing one never complete (they wait for something the failed step will not send): the
                // join must still report the error
                "stuck_after_err": variant != "join" && r.chance(1, 3),
@@ -212,6 +241,9 @@ impl Scenario for SjScenario {
         let dep = pu(p, "dep");
         let source_steps = pvec(p, "source_steps");
         let gated = pb(p, "source_gated");
+        // (only without forward dependencies: a task that waits for a later task to be polled cannot finish before the source
+        // has produced that task, so gating the source on results would deadlock by construction)
+        let gate_on_results = p.get("gate_on_results").and_then(Value::as_bool) == Some(true) && dep == 0;
         let stuck_after_err = p.get("stuck_after_err").and_then(Value::as_bool) == Some(true) && !errs.is_empty();
         let first_err_idx = errs.iter().copied().min();
         let inexact = pb(p, "inexact_hint");
@@ -273,7 +305,13 @@ impl Scenario for SjScenario {
                             }
                             shuttle::future::yield_now().await;
                             if gated && upto > 0 {
-                                WaitPolled { i: upto - 1, st: StdArc::clone(&st) }.await;
+                                if gate_on_results {
+                                    // upstream depends on downstream consumption: the next burst is produced only after the consumer has
+                                    // received every result of the bursts so far
+                                    WaitYielded { n: upto, st: StdArc::clone(&st) }.await;
+                                } else {
+                                    WaitPolled { i: upto - 1, st: StdArc::clone(&st) }.await;
+                                }
                             }
                         }
                     })
@@ -327,7 +365,20 @@ impl Scenario for SjScenario {
                                     })
                                     .await;
                                     let Some(x) = item else { break };
-                                    st.lock().unwrap().yielded += 1;
+                                    {
+                                        let mut g = st.lock().unwrap();
+                                        g.yielded += 1;
+                                        let y = g.yielded;
+                                        let mut k = 0;
+                                        while k < g.yield_waiters.len() {
+                                            if g.yield_waiters[k].0 <= y {
+                                                let (_, w) = g.yield_waiters.swap_remove(k);
+                                                w.wake();
+                                            } else {
+                                                k += 1;
+                                            }
+                                        }
+                                    }
                                     v.push(x.unwrap());
                                 }
                                 Ok(v)
@@ -387,6 +438,9 @@ fn judge(
     let o = out.lock().unwrap();
     if let Some(v) = &s.window_violation {
         return RunRes::violation("sj_window", v.clone(), shape, Some(outcome));
+    }
+    if s.source_polled_after_end {
+        return RunRes::violation("sj_source_polled_after_end", format!("variant {variant} w={w} n={n}: the source stream was polled again after it had returned None"), shape, Some(outcome));
     }
     match outcome.class {
         "finished" => {}
